@@ -1,4 +1,5 @@
 import Mdsort.Proofs.Header
+import Mdsort.Model.Eval
 
 /-!
 # C08 - rewriting a message preserves everything it is not meant to change
@@ -10,6 +11,16 @@ for one rewrite: same body, same other fields (names, raw values incl. folding, 
 every set name exactly once with its last value, a replaced name at the position of
 its first occurrence.  The same predicate is evaluated on the real output of
 `message_write` by the correspondence run.
+
+Domain (audit au2).  `Spec.WF` admits folded values (SP / TAB continuation lines), duplicate and
+mixed-case names, 8-bit bytes and an mbox `From ` line; it EXCLUDES a NUL anywhere, a message without an
+empty line, CRLF line ends (the separator line `\r` is not empty), a header line that is neither a field start
+nor a continuation, and a body that starts with an empty line (findings F16a-d; examples below).
+`Spec.read` removes the blanks after the colon, so "same value" is blind to their number
+(`message_write` normalises them to one space).  `Proofs.SetOk` (value without newline / NUL / leading
+blank, name without colon / white space / NUL) is a hypothesis on the settings that NOTHING in this
+development discharges for the `label` action, whose value contains the RFC 2047-DECODED existing `X-Label`
+of the message: `C08_rewrite_preserves_false`, `C08_label_value_from_message_breaks_rewrite`.
 -/
 
 namespace Mdsort.Props
@@ -22,11 +33,103 @@ theorem C08_parse (m : Bytes) (fs : List (Bytes × Bytes)) (b : Bytes) (h : Spec
     (sortById (parseMessage m).headers).map (·.id) = (List.range fs.length).map (· + 1) :=
   Proofs.parseMessage_eq_read m fs b h
 
-/-- Any sequence of header settings followed by `message_write` preserves everything else. -/
-theorem C08_rewrite_preserves (m : Bytes) (kvs : List (Bytes × Bytes)) (hwf : Spec.WF m)
+/-- Any sequence of header settings that satisfy `Proofs.SetOk`, followed by `message_write`, preserves
+everything else.  PARTIAL: the hypothesis `hk` restricts the VALUES set (no newline, no NUL, no leading blank);
+the statement without it is `C08_rewrite_preserves` below, which is false. -/
+theorem C08_rewrite_preserves_partial (m : Bytes) (kvs : List (Bytes × Bytes)) (hwf : Spec.WF m)
     (hk : ∀ kv ∈ kvs, Proofs.SetOk kv) :
     Spec.rewriteOk m kvs (messageWrite (Proofs.applySets (parseMessage m) kvs)).1 = true :=
   Proofs.rewrite_preserves m kvs hwf hk
+
+/-- The full statement the property asks for (every well-formed message, EVERY sequence of settings).  False:
+`C08_rewrite_preserves_false`. -/
+def C08_rewrite_preserves : Prop :=
+  ∀ (m : Bytes) (kvs : List (Bytes × Bytes)), Spec.WF m →
+    Spec.rewriteOk m kvs (messageWrite (Proofs.applySets (parseMessage m) kvs)).1 = true
+
+/-! ### Non-vacuity of `WF` and `SetOk`, and what they exclude -/
+
+/-- mbox line, a TAB-folded and a SP-folded value, a duplicate name in another letter case with two blanks after
+its colon, an empty line inside the body, no final newline. -/
+def C08_sample : Bytes := ofString
+  "From x@y Thu Jan  1 00:00:00 1970\nReceived: a\n\tb\nSubject: hi\n there\nX-Label: old\nreceived:  c\n\nbody\n\nmore"
+
+/-- `label` (replacing, name in another case) and `add-header` (new name). -/
+def C08_sampleSets : List (Bytes × Bytes) := [(ofString "x-label", ofString "old new"), (ofString "X-New", ofString "v")]
+
+/-- The reference reading of the sample: folding kept verbatim, blanks after the colon dropped. -/
+example : Spec.read C08_sample = some
+    ([(ofString "Received", ofString "a\n\tb"), (ofString "Subject", ofString "hi\n there"),
+      (ofString "X-Label", ofString "old"), (ofString "received", ofString "c")], ofString "body\n\nmore") := by
+  decide +kernel
+
+theorem c08_sample_wf : Spec.WF C08_sample := by unfold Spec.WF; decide +kernel
+
+theorem c08_sampleSets_ok : ∀ kv ∈ C08_sampleSets, Proofs.SetOk kv := by
+  intro kv hkv
+  simp only [C08_sampleSets, List.mem_cons, List.not_mem_nil, or_false] at hkv
+  rcases hkv with rfl | rfl
+  · refine ⟨by decide +kernel, by decide +kernel, ?_⟩
+    show ∀ c, (ofString "old new").head? = some c → isblank c = false
+    rw [show (ofString "old new").head? = some 111 by decide +kernel]
+    intro c h; cases h; decide
+  · refine ⟨by decide +kernel, by decide +kernel, ?_⟩
+    show ∀ c, (ofString "v").head? = some c → isblank c = false
+    rw [show (ofString "v").head? = some 118 by decide +kernel]
+    intro c h; cases h; decide
+
+/-- Both hypotheses of `C08_rewrite_preserves_partial` hold of the sample: the theorem applies. -/
+example : Spec.rewriteOk C08_sample C08_sampleSets
+    (messageWrite (Proofs.applySets (parseMessage C08_sample) C08_sampleSets)).1 = true :=
+  C08_rewrite_preserves_partial _ _ c08_sample_wf c08_sampleSets_ok
+
+/-- Outside `WF` (nothing is proved about these): CRLF line ends, a body starting with an empty line, no empty
+line at all, a line in the header block that is neither field nor continuation, a NUL. -/
+example : ¬ Spec.WF (ofString "A: 1\r\n\r\nx\r\n") ∧ ¬ Spec.WF (ofString "A: 1\n\n\nx\n") ∧
+    ¬ Spec.WF (ofString "A: 1\n") ∧ ¬ Spec.WF (ofString "A: 1\nno colon here\n\nx\n") ∧
+    ¬ Spec.WF [65, 58, 32, 0, 10, 10, 120] := by
+  unfold Spec.WF; decide +kernel
+
+/-! ### `SetOk` is needed, and message content can violate it (audit au2)
+
+`match_interpolate` builds the value of `label` from the existing `X-Label` field as `message_get_header`
+returns it, i.e. unfolded and RFC 2047-DECODED (`Model.matchInterpolate`, case `.label`).  A Q-encoded word can
+hold `=0A`: the decoded value then contains newlines, it is written back verbatim by `message_write`, and the
+header block ends inside it.  Reproduced on the real binary (design-notes/audit-C07-C12.md): the rest of the
+value and every later field become body text, exit status 0. -/
+
+/-- A well-formed message whose only field is `X-Label: =?utf-8?Q?a=0A=0AINJECTED?=`. -/
+def C08_hostile : Bytes := ofString "X-Label: =?utf-8?Q?a=0A=0AINJECTED?=\n\nbody\n"
+
+/-- The match-list entry of `label "x"`. -/
+def C08_labelEntry : Match := { ty := .label, lno := 1, part := 0, strings := [ofString "x"] }
+
+/-- The value `label "x"` sets on `C08_hostile`. -/
+def C08_hostileValue : Bytes := ofString "a\n\nINJECTED x"
+
+theorem c08_hostile_wf : Spec.WF C08_hostile := by unfold Spec.WF; decide +kernel
+
+/-- **Witness (model = real binary).**  On the well-formed `C08_hostile`, `label "x"` (1) writes the file
+`X-Label: a\n\nINJECTED x\n\nbody\n`; (2) that is `message_set_header` with the value `a\n\nINJECTED x`,
+which is not `SetOk`; (3) `Spec.rewriteOk` rejects the result; (4) the body a reader sees afterwards is
+`INJECTED x\n\nbody\n`, not `body\n`. -/
+theorem C08_label_value_from_message_breaks_rewrite :
+    (matchInterpolate (some []) [{ ty := .mtch, lno := 1, part := 0 }, C08_labelEntry] 1 C08_labelEntry
+        (fun _ => parseMessage C08_hostile)).map (fun r => r.2.map fun p => (messageWrite p.2).1) =
+      some (some (ofString "X-Label: a\n\nINJECTED x\n\nbody\n")) ∧
+    setHeader (parseMessage C08_hostile) (ofString "X-Label") C08_hostileValue =
+      Proofs.applySets (parseMessage C08_hostile) [(ofString "X-Label", C08_hostileValue)] ∧
+    Spec.rewriteOk C08_hostile [(ofString "X-Label", C08_hostileValue)]
+      (messageWrite (Proofs.applySets (parseMessage C08_hostile) [(ofString "X-Label", C08_hostileValue)])).1 = false ∧
+    Spec.body (ofString "X-Label: a\n\nINJECTED x\n\nbody\n") = ofString "INJECTED x\n\nbody\n" ∧
+    Spec.body C08_hostile = ofString "body\n" := by
+  decide +kernel
+
+theorem C08_rewrite_preserves_false : ¬ C08_rewrite_preserves := by
+  intro h
+  have h1 := h C08_hostile [(ofString "X-Label", C08_hostileValue)] c08_hostile_wf
+  rw [C08_label_value_from_message_breaks_rewrite.2.2.1] at h1
+  cases h1
 
 /-- A copy without header settings (move across file systems, exec stdin of a part)
 has the same fields and body. -/
@@ -34,7 +137,14 @@ theorem C08_copy_identity (m : Bytes) (hwf : Spec.WF m) :
     Spec.rewriteOk m [] (messageWrite (parseMessage m)).1 = true := by
   simpa [Proofs.applySets] using Proofs.rewrite_preserves m [] hwf (by simp)
 
-/-- A second write gives the same bytes (later actions see the same message). -/
+/-- Non-vacuity, and what `rewriteOk m []` amounts to: `Spec.read` of the copy equals `Spec.read` of the original
+up to the blanks after a colon (the copy of `received:  c` is `received: c`). -/
+example : Spec.rewriteOk C08_sample [] (messageWrite (parseMessage C08_sample)).1 = true :=
+  C08_copy_identity _ c08_sample_wf
+
+/-- A second `message_write` of the IN-MEMORY message left by the first gives the same bytes (no hypothesis).
+This is not "re-parsing the output yields the same table" (`C08_reparse_stable` of DESIGN.md section 4 is not
+proved; for settings outside `SetOk` it is false, see the witness above). -/
 theorem C08_rewrite_stable (m : Bytes) (kvs : List (Bytes × Bytes)) :
     let w := messageWrite (Proofs.applySets (parseMessage m) kvs)
     (messageWrite w.2).1 = w.1 :=
